@@ -24,6 +24,11 @@ def _exprs_tested(test: ast.AST) -> Set[str]:
                 if isinstance(op, (ast.In, ast.NotIn)):
                     out.add(ast.unparse(right))
                     out.add(ast.unparse(node.left))
+                if isinstance(op, (ast.Gt, ast.GtE, ast.Lt, ast.LtE)):
+                    # size checks: len(E) > n  (bounded memo eviction and the like)
+                    for side in (node.left, right):
+                        if isinstance(side, ast.Call) and isinstance(side.func, ast.Name) and side.func.id == "len" and side.args:
+                            out.add(ast.unparse(side.args[0]))
         elif isinstance(node, ast.UnaryOp) and isinstance(node.op, ast.Not):
             out.add(ast.unparse(node.operand))
         elif isinstance(node, ast.Call) and isinstance(node.func, ast.Name) and node.func.id in ("hasattr", "getattr"):
@@ -51,6 +56,11 @@ def _stores(stmts: List[ast.stmt]) -> Set[str]:
                     out.add(ast.unparse(el))
                     if isinstance(el, ast.Subscript):
                         out.add(ast.unparse(el.value))
+            if isinstance(node, ast.Delete):
+                for t in node.targets:
+                    out.add(ast.unparse(t))
+                    if isinstance(t, ast.Subscript):
+                        out.add(ast.unparse(t.value))
             if isinstance(node, ast.Call) and isinstance(node.func, ast.Attribute):
                 if node.func.attr in _MUTATORS:
                     out.add(ast.unparse(node.func.value))
